@@ -182,6 +182,46 @@ def w_overlap_tables(job):
                        'rows': len(out)}}
 
 
+def w_overlap_reassign(job):
+    """The documented attributes overlap_size / comp_op of an OverlapFilter are reassigned after construction:
+    filter_pair and filter_tables must follow the current values (exactness is stated in terms of them)."""
+    pres = PRESENTATIONS[job.get('pres', 0)]
+    K = job['K']
+    toks = ranked_tokens(pres, K)
+    S = [mask_str(toks, m) for m in range(1 << K)]
+    lm, _ = masks_for(S, [], ['ws', True])
+    L = mkframe(S, pres, prefix='l')
+    R = mkframe(S, pres, prefix='r')
+    viol = []
+    calls = nontrivial = 0
+    for (s0, op0) in job['initial']:
+        for (s1, op1) in job['final']:
+            f = ssj.OverlapFilter(make_tokenizer(['ws', True]), s0, op0)
+            lib(f.filter_pair, S[-1], S[-1])        # use it once with the initial values
+            f.overlap_size = s1
+            f.comp_op = op1
+            bad = None
+            for i, a in enumerate(S):
+                for j, b in enumerate(S):
+                    keep = bool(a) and bool(b) and OPS[op1]((lm[i] & lm[j]).bit_count(), s1)
+                    calls += 1
+                    nontrivial += int(keep)
+                    if lib(f.filter_pair, a, b) == keep and bad is None:
+                        bad = 'filter_pair(%r, %r) dropped=%s, overlap %d' % (a, b, keep, (lm[i] & lm[j]).bit_count())
+            out = call_filter_tables(f, L, R, n_jobs=1, score=False)
+            got, _ = pairs_of(out, L, R)
+            exp = {(i, j) for i in range(len(S)) for j in range(len(S))
+                   if lm[i] and lm[j] and OPS[op1]((lm[i] & lm[j]).bit_count(), s1)}
+            if set(got) != exp and bad is None:
+                bad = 'filter_tables lists %d pairs, expected %d' % (len(got), len(exp))
+            if bad and len(viol) < MAXV:
+                viol.append({'key': 'C06|reassign|%s%s->%s%s' % (op0, s0, op1, s1),
+                             'what': 'C06: OverlapFilter built with overlap_size=%r comp_op=%s, attributes then set to '
+                                     'overlap_size=%r comp_op=%s: %s' % (s0, op0, s1, op1, bad), 'detail': {}})
+    return {'cases': calls, 'calls': calls, 'nontrivial': nontrivial, 'outcomes': {'kept': nontrivial, 'x': 1},
+            'viol': viol, 'sample': {'initial': job['initial'], 'final': job['final']}}
+
+
 def layers(tier):
     quick = tier == 'quick'
     pres = seed() % 4
@@ -244,6 +284,12 @@ def layers(tier):
                     'OverlapFilter.filter_tables on UNIV(%d) x overlap_size x op x score flag x n_jobs and on '
                     'STR({a,b},5) under q-gram tokenizers; exact pair set and score = overlap' % Kt,
                     min_nontrivial=1000, chunksize=2))
+    jobs = [{'K': 4, 'initial': [(s0, op0)], 'final': [(s1, op1) for s1 in (1, 2, 3) for op1 in ('>=', '>', '=')], 'pres': pres}
+            for s0 in (1, 3, 4) for op0 in ('>=', '=')]
+    Ls.append(Layer('overlap-reassigned', 'checks.c06:w_overlap_reassign', jobs,
+                    'OverlapFilter whose documented attributes overlap_size / comp_op are reassigned after construction '
+                    '(6 initial x 9 final settings): filter_pair on all pairs of subsets of 4 tokens and filter_tables follow '
+                    'the current values', min_nontrivial=100, chunksize=1))
     from checks.configx import filter_config_layer
     Ls.append(filter_config_layer(['C06'], quick))
     return Ls
